@@ -14,7 +14,7 @@ import time
 from fractions import Fraction
 
 VERIF = os.path.dirname(os.path.dirname(os.path.abspath(__file__)))
-COQ = os.path.join(VERIF, 'coq')
+COQ = os.environ.get('VERIF_COQ') or os.path.join(VERIF, 'coq')      # VERIF_COQ: scratch copy of the Coq project (tools/try_seed.py)
 REPO = os.environ.get('VERIF_REPO', '/repo')
 NPROC = min(16, os.cpu_count() or 4)
 COQ_WARN = ('-w', '-notation-overridden,-deprecated-hint-without-locality,'
@@ -379,9 +379,15 @@ def standard_prove(res, prop_file, gen_targets=None, extra=()):
 
 
 def _standard_prove(res, prop_file, gen_targets=None, extra=()):
+    sys.path.insert(0, os.path.join(VERIF, 'translator'))
+    import py2coq
+    try:
+        # every Gen file is brought in line with the tree under check first (0.9 s): a run against another tree (tools/try_seed.py)
+        # may have left definitions or failure stubs of that tree behind
+        py2coq.generate_everything(REPO, COQ)
+    except Exception:
+        pass
     if gen_targets:
-        sys.path.insert(0, os.path.join(VERIF, 'translator'))
-        import py2coq
         for tgt in gen_targets:
             try:
                 py2coq.generate(tgt, REPO, COQ)
